@@ -117,7 +117,9 @@ def corpus_items(item, rec):
                  nontrivial=any(getattr(v, "data", None) is not None and len(v.data) for v in out[1].values()),
                  sample={"corpus_id": r["id"], "test": r["test"], "results": sorted(out[1])} if not probs else None)
         for kind, detail in probs:
-            rec.violation("C10:corpus:%s" % kind, "corpus call %s (%s): %s %s" % (r["id"], r["test"], kind, detail), {"corpus_id": r["id"]})
+            uses_eval = "eval(" in str(kw.get("script", ""))
+            rec.violation("C10:corpus:%s:%s" % ("eval-external-routine" if uses_eval else r["test"].split("::")[-1], kind),
+                          "corpus call %s (%s): %s %s" % (r["id"], r["test"], kind, detail), {"corpus_id": r["id"]})
 
 
 def program_items(item, rec):
